@@ -19,7 +19,7 @@ if [ ! -x $BIN ]; then
   rm -rf $DIR; mkdir -p $DIR
   $VERIF/out/bin/vinstr -repo $REPO -verif $VERIF -out $DIR -extra $VERIF/tools/litmus/lit ${VERIF_RACE:+-race} >&2
   (cd $REPO && go test -c -vet=off -tags verif -overlay $DIR/overlay.json -o $BIN go.amzn.com/cmd/aws-lambda-rie) >&2
-  # keep only the 3 most recent builds
-  ls -1dt $VERIF/out/build/*/ 2>/dev/null | tail -n +4 | xargs -r rm -rf
+  # keep only the 8 most recent builds
+  ls -1dt $VERIF/out/build/*/ 2>/dev/null | tail -n +9 | xargs -r rm -rf
 fi
 echo $BIN
